@@ -325,6 +325,7 @@ func verifC34KnownEqualsPrefix(line []rune) bool {
 // says "safe", then the text it would run, Source[:LastFlowToken], runs only safe commands, no
 // assignment, no file redirection, no sub-shell running something else.
 func verifC34Check(line []rune) {
+	line = line[:len(line):len(line)] // no spare capacity: reading past the end must not go unnoticed
 	rt.Note("line=" + string(line))
 	rt.KnownFinding("C34-flow-token-then-paren", verifC34KnownFlowParen(line))
 	rt.KnownFinding("C34-equals-prefix", verifC34KnownEqualsPrefix(line))
